@@ -1,7 +1,7 @@
 ------------------------------ MODULE StrRef ------------------------------
 (* Reference definitions of the string utilities of src/utilities/qstring.c over sequences of byte  *)
 (* values (C19).  Strings never contain 0.                                                            *)
-EXTENDS Integers, Sequences, TLC, SequencesExt
+EXTENDS Integers, Sequences, TLC, SequencesExt, FiniteSets
 Blank(c) == c \in {32, 9, 13, 10}
 RECURSIVE TrimHead(_)
 TrimHead(s) == IF s # <<>> /\ Blank(Head(s)) THEN TrimHead(Tail(s)) ELSE s
@@ -44,10 +44,51 @@ FindFrom(s, pat, i) == IF i + Len(pat) - 1 > Len(s) THEN 0 ELSE IF MatchAt(s, i,
 Between(s, a, b) == LET p == FindFrom(s, a, 1) IN
                     IF p = 0 THEN <<FALSE, <<>>>>
                     ELSE LET q == FindFrom(s, b, p + Len(a)) IN IF q = 0 THEN <<FALSE, <<>>>> ELSE <<TRUE, SubSeq(s, p + Len(a), q - 1)>>
+\* ---- the remaining routines: predicates, number formatting, formatted append ----
+Digit(c) == c >= 48 /\ c <= 57
+Alnum(c) == Digit(c) \/ (c >= 65 /\ c <= 90) \/ (c >= 97 /\ c <= 122)
+AllIn(s, P(_)) == \A i \in 1..Len(s) : P(s[i])
+\* decimal value of a digit string, saturating (strings may be long, TLC integers are 32 bit)
+DecVal(p) == FoldLeft(LAMBDA a, c : IF a > 100000 THEN a ELSE a * 10 + (c - 48), 0, p)
+\* dotted quad: exactly four parts, each a non-empty run of digits with a value of 0..255.
+OctetOk(p) == p # <<>> /\ AllIn(p, Digit) /\ DecVal(p) <= 255
+LeadingZero(p) == Len(p) >= 2 /\ p[1] = 48
+\* Whether parts with superfluous leading zeros ("01") are accepted is left open.
+Ip4Ok(res, s) == LET f == Fields(s, <<46>>) IN
+                 IF Len(f) = 4 /\ \A i \in 1..4 : OctetOk(f[i]) THEN (res \/ \E i \in 1..4 : LeadingZero(f[i])) ELSE ~res
+\* e-mail address: the documentation only says "email-address formatted"; decided are the clear cases on both sides.
+EmailChar(c) == Alnum(c) \/ c = 45 \/ c = 95
+Count(s, c) == Cardinality({i \in 1..Len(s) : s[i] = c})
+EmailMustReject(s) == \/ Count(s, 64) # 1 \/ s[1] = 64 \/ s[Len(s)] = 64
+                      \/ Count(s, 46) = 0
+                      \/ \E i \in 1..Len(s) : ~(EmailChar(s[i]) \/ s[i] = 64 \/ s[i] = 46)
+                      \/ \E i \in 1..Len(s) - 1 : s[i] = 64 /\ s[i + 1] = 46
+                      \/ \E i \in 1..Len(s) - 1 : s[i] = 46 /\ s[i + 1] = 46 /\ \E j \in 1..i : s[j] = 64
+EmailMustAccept(s) == /\ Count(s, 64) = 1
+                      /\ LET at == CHOOSE i \in 1..Len(s) : s[i] = 64
+                             loc == SubSeq(s, 1, at - 1)
+                             labels == Fields(SubSeq(s, at + 1, Len(s)), <<46>>)
+                         IN /\ Len(loc) >= 2 /\ AllIn(loc, EmailChar)
+                            /\ Len(labels) >= 2 /\ \A k \in 1..Len(labels) : Len(labels[k]) >= 2 /\ AllIn(labels[k], EmailChar)
+EmailOk(res, s) == IF s = <<>> THEN ~res ELSE (EmailMustReject(s) => ~res) /\ (EmailMustAccept(s) => res)
+\* decimal digits of a natural number; thousands separators
+RECURSIVE Digits(_)
+Digits(n) == IF n < 10 THEN <<48 + n>> ELSE Append(Digits(n \div 10), 48 + (n % 10))
+Group3(d) == FlattenSeq([i \in 1..Len(d) |-> IF i > 1 /\ (Len(d) - i + 1) % 3 = 0 THEN <<44, d[i]>> ELSE <<d[i]>>])
+\* the magnitude is given as q*10+r because |INT_MIN| is not a TLC integer
+CommaNumber(neg, q, r) == (IF neg THEN <<45>> ELSE <<>>) \o Group3(IF q = 0 THEN <<48 + r>> ELSE Append(Digits(q), 48 + r))
+LowerHex(c) == Digit(c) \/ (c >= 97 /\ c <= 102)
 \* sanity of the definitions themselves
 ASSUME Trim(<<32, 9, 97, 32, 98, 10, 13>>) = <<97, 32, 98>>
 ASSUME ReplaceStr(<<97, 97, 97>>, <<97, 97>>, <<98>>) = <<98, 97>>            \* leftmost, non-overlapping
 ASSUME ReplaceTok(<<97, 44, 98>>, <<44, 59>>, <<45, 45>>) = <<97, 45, 45, 98>>
 ASSUME Fields(<<97, 44, 44, 98>>, <<44>>) = << <<97>>, <<>>, <<98>> >>
 ASSUME Between(<<120, 91, 97, 98, 93, 121>>, <<91>>, <<93>>) = <<TRUE, <<97, 98>>>>
+ASSUME CommaNumber(TRUE, 214748364, 8) = <<45, 50,44, 49,52,55,44, 52,56,51,44, 54,52,56>>     \* -2,147,483,648
+ASSUME CommaNumber(FALSE, 0, 0) = <<48>> /\ CommaNumber(FALSE, 99, 9) = <<57,57,57>> /\ CommaNumber(FALSE, 100, 0) = <<49,44,48,48,48>>
+ASSUME Ip4Ok(TRUE, <<49,50,55,46,48,46,48,46,49>>) /\ ~Ip4Ok(FALSE, <<49,50,55,46,48,46,48,46,49>>)          \* 127.0.0.1
+ASSUME Ip4Ok(FALSE, <<49,46,50,46,51,46,50,53,54>>) /\ ~Ip4Ok(TRUE, <<49,46,50,46,51,46,50,53,54>>)          \* 1.2.3.256
+ASSUME Ip4Ok(FALSE, <<49,46,50,46,51>>) /\ Ip4Ok(FALSE, <<49,46,50,46,51,46>>) /\ Ip4Ok(TRUE, <<48,49,46,50,46,51,46,52>>) /\ Ip4Ok(FALSE, <<48,49,46,50,46,51,46,52>>)
+ASSUME EmailOk(TRUE, <<97,98,64,99,100,46,101,102>>) /\ ~EmailOk(FALSE, <<97,98,64,99,100,46,101,102>>)     \* ab@cd.ef
+ASSUME EmailOk(FALSE, <<97,98,99,100>>) /\ ~EmailOk(TRUE, <<97,64,98,64,99,46,100>>)
 ===========================================================================
